@@ -22,7 +22,14 @@ def run(rep, pest, thorough: bool) -> None:
         for j, c in enumerate(batch):
             esc = "".join(chr(x) for x in c["esc"])
             cp = c["cp"]
-            g = f's = {{ "{esc}" }}\nq = {{ "a{esc}B" }}\nc = {{ \'{esc}\'..\'{esc}\' }}\n'
+            tail = esc[1:]  # the escape without its backslash: after an ESCAPED backslash it is ordinary text
+            g = (
+                f's = {{ "{esc}" }}\nq = {{ "a{esc}B" }}\nc = {{ \'{esc}\'..\'{esc}\' }}\n'
+                f'i = {{ ^"{esc}x" }}\nl = {{ PUSH_LITERAL("{esc}") ~ POP }}\n'
+            )
+            with_bs = tail[0] not in '"\\'  # \\" and \\\\ would end / continue the literal
+            if with_bs:
+                g += f'd = {{ "\\\\{tail}" }}\ne = {{ ^"\\\\{tail}" }}\nf = {{ PUSH_LITERAL("\\\\{tail}") ~ POP }}\n'
             n += 1
             try:
                 p = pest.Parser.from_grammar(g, optimizer=None)
@@ -43,6 +50,16 @@ def run(rep, pest, thorough: bool) -> None:
                 "c": M.run_parse(pest, p, "c", ch),
             }
             bad = [r for r, o in obs.items() if not (o.get("ok") and o["pairs"][0][1:3] == [0, len(ch) if r != "q" else len(ch) + 2])]
+            # the same escape in an insensitive literal and in PUSH_LITERAL; and after an escaped backslash, where it is plain text
+            lit = "\\" + tail
+            for rule, text in (("i", ch + "x"), ("i", ch + "X"), ("l", ch)) + ((("d", lit), ("e", lit), ("f", lit)) if with_bs else ()):
+                o = M.run_parse(pest, p, rule, text)
+                if not (o.get("ok") and o["pairs"][0][1:3] == [0, len(text)]):
+                    bad.append(f"rule {rule} on {text!r}: {str(o)[:80]}")
+            for rule, text in (("d", ch), ("e", ch), ("f", ch), ("d", "\\" + ch), ("e", "\\" + ch)) if with_bs else ():
+                o = M.run_parse(pest, p, rule, text)
+                if o.get("ok") and o["pairs"][0][1:3] == [0, len(text)] and text != lit:
+                    bad.append(f"rule {rule} (an escaped backslash followed by {tail!r}) matches {text!r}")
             # neighbours must fail
             for other in {chr(cp - 1) if cp > 0 else None, chr(cp + 1) if cp < 0x10FFFF and cp + 1 != 0xD800 else None, ""}:
                 if other is None:
